@@ -37,14 +37,14 @@ BNF_ASSUME = [
 PLANS = {}
 
 PLANS["C01"] = dict(
-    jobs=sharded("diff", "C01", 8000, 120000), replay=replay_with("diff", "C01"),
+    jobs=sharded("diff", "C01", 16000, 240000, max_s_quick=90, max_s_thorough=1200), replay=replay_with("diff", "C01"),
     rule="one evaluation = one (in-scope grammar, input) pair parsed by the real LR parser under each in-scope table type and compared with Earley membership; "
          "scope is observed: the GLR-algorithm table of that type has no multi-action cell and the LR-mode table is cell-identical to it; "
          "non-trivial = distinct in-scope grammar (hash of text) with at least one accepted and one rejected input",
     assumptions=BNF_ASSUME, floor=dict(quick=40, thorough=400), exhaustive=False,
 )
 PLANS["C03"] = dict(
-    jobs=sharded("diff", "C03", 8000, 120000), replay=replay_with("diff", "C03"),
+    jobs=sharded("diff", "C03", 8000, 120000, max_s_quick=90, max_s_thorough=1200), replay=replay_with("diff", "C03"),
     rule="one evaluation = one (grammar in C03 scope, input) pair: Ok iff derivation count > 0, solutions() == count, and each of get_tree(i)/iter()/(&f).into_iter()/into_iter() "
          "yields the multiset of derivation trees (normalised by dropping trailing empty children) exactly once; get_tree(n), get_tree(n+1), get_tree(n+17) yield None; "
          "non-trivial = distinct in-scope grammar with an input having >= 2 derivation trees (grammars with nullable symbols counted separately)",
@@ -53,13 +53,13 @@ PLANS["C03"] = dict(
     floor=dict(quick=30, thorough=300),
 )
 PLANS["C07"] = dict(
-    jobs=sharded("diff", "C07", 8000, 120000), replay=replay_with("diff", "C07"),
+    jobs=sharded("diff", "C07", 16000, 240000, max_s_quick=90, max_s_thorough=1200), replay=replay_with("diff", "C07"),
     rule="one evaluation = one (conflict-free grammar, input) pair: LR (LALR and LALR_PAGER) and GLR (LALR_RN) accept the same inputs, GLR reports exactly 1 solution and its tree equals the LR tree "
          "(productions, token kinds/texts, all spans) modulo trailing empty children; non-trivial = distinct (grammar, accepted input of >= 2 tokens)",
     assumptions=BNF_ASSUME, floor=dict(quick=200, thorough=2000),
 )
 PLANS["C12"] = dict(
-    jobs=sharded("diff", "C12", 8000, 120000), replay=replay_with("diff", "C12"),
+    jobs=sharded("diff", "C12", 8000, 120000, max_s_quick=90, max_s_thorough=1200), replay=replay_with("diff", "C12"),
     rule="one evaluation = one (grammar, input) pair; for a non-sentence the error offset must be the start of the first token at which the Earley item set becomes empty (end of input for a proper prefix), "
          "line/column must agree with that offset, the message must list >= 1 expected token; a sentence must never error; LR (both tables) and GLR; "
          "non-trivial = distinct (grammar, index of offending token, algorithm)",
@@ -67,7 +67,7 @@ PLANS["C12"] = dict(
     floor=dict(quick=200, thorough=2000),
 )
 PLANS["C13"] = dict(
-    jobs=sharded("diff", "C13", 8000, 120000), replay=replay_with("diff", "C13"),
+    jobs=sharded("diff", "C13", 8000, 120000, max_s_quick=90, max_s_thorough=1200), replay=replay_with("diff", "C13"),
     rule="one evaluation = one (grammar, input) pair; every LR tree and every tree of every GLR forest (<= 64 trees) is walked: token value is the input slice at its span (pointer identity), token spans ordered, "
          "non-terminal span = [first child start, last child end], empty non-terminal zero-width between previous token end and next token start, line/column recomputed from byte offsets; "
          "non-trivial = distinct (grammar, algorithm, input) whose tree contains an empty non-terminal",
@@ -75,7 +75,7 @@ PLANS["C13"] = dict(
     floor=dict(quick=100, thorough=1000),
 )
 PLANS["C02"] = dict(
-    jobs=sharded("c02", "C02", 1600, 24000), replay=replay_with("c02", "C02"),
+    jobs=sharded("c02", "C02", 4800, 72000, max_s_quick=90, max_s_thorough=1200), replay=replay_with("c02", "C02"),
     rule="one evaluation = one (annotated grammar, LR settings, input) triple parsed with partial_parse off and on by the real LR parser; every Ok tree is validated node by node against the abstract grammar "
          "(root = start rule, children symbols = production right-hand side, leaves = the tokens of the input / of a token prefix, kinds, texts and spans), "
          "Ok with partial off implies the identical tree with partial on; non-trivial = distinct (grammar, settings) where a conflict was resolved by meta-data/settings and an input of >= 3 tokens parsed Ok",
@@ -84,7 +84,7 @@ PLANS["C02"] = dict(
     floor=dict(quick=40, thorough=400),
 )
 PLANS["C04"] = dict(
-    jobs=sharded("c04", "C04", 3200, 60000), replay=replay_with("c04", "C04"),
+    jobs=sharded("c04", "C04", 16000, 300000, max_s_quick=90, max_s_thorough=1200), replay=replay_with("c04", "C04"),
     rule="one evaluation = one (grammar, table type) compiled with the GLR algorithm so that no cell is resolved; a simulation relation between the reference canonical LR(1) collection and the dumped table is built "
          "and checked completely: equal item cores, exactly the canonical transitions, look-aheads of every item = union over the related canonical states, Reduce/Accept/right-nulled entries exactly as prescribed, "
          "every table state covered (main and Layout automaton); consequences: reference-LALR(1) grammars compile conflict-free in LR mode, conflict-free tables imply <= 1 derivation for all short strings; "
@@ -94,7 +94,7 @@ PLANS["C04"] = dict(
     floor=dict(quick=60, thorough=600),
 )
 PLANS["C05"] = dict(
-    jobs=sharded("c05", "C05", 2400, 40000), replay=replay_with("c05", "C05"),
+    jobs=sharded("c05", "C05", 12000, 200000, max_s_quick=90, max_s_thorough=1200), replay=replay_with("c05", "C05"),
     rule="(A) one evaluation = one conflict cell (>= 2 candidate actions in the unresolved table of the same grammar without meta-data) of an annotated grammar; 2-candidate cells must equal the documented rule "
          "computed as a pure function; >= 3 candidates: kept actions are a non-empty subset; LR returns Err iff a multi-action cell remains, GLR keeps them; the compiler never aborts. "
          "(B) one evaluation = one expression parsed by an annotated operator grammar and compared with a precedence-climbing parser. "
@@ -105,7 +105,7 @@ PLANS["C05"] = dict(
     floor=dict(quick=25, thorough=40),
 )
 PLANS["C06"] = dict(
-    jobs=sharded("c06", "C06", 480, 6400), replay=replay_with("c06", "C06"),
+    jobs=sharded("c06", "C06", 640, 9600, max_s_quick=90, max_s_thorough=1200), replay=replay_with("c06", "C06"),
     rule="one evaluation = one (terminal set with overlaps and priorities, strategy setting, algorithm, input) tuple; inputs are ALL strings up to the length bound over the terminals' alphabet. "
          "LR: the token sequence the real parser acted on (leaves of its tree), or its error offset, must equal an oracle-side LR walk of the dumped table driven by the documented selection "
          "(priority > most specific > longest match > grammar order) over the terminals expected in the current state. GLR (flat family, all strategies optional): the set of token paths over all trees and solutions() "
@@ -118,7 +118,7 @@ PLANS["C06"] = dict(
     floor=dict(quick=30, thorough=200), exhaustive=False,
 )
 PLANS["C09"] = dict(
-    jobs=sharded("c09", "C09", 4800, 64000), replay=replay_with("c09", "C09"),
+    jobs=sharded("c09", "C09", 16000, 240000, max_s_quick=90, max_s_thorough=1200), replay=replay_with("c09", "C09"),
     rule="one evaluation = one generated grammar text (alternatives, EMPTY, named/?= assignments, inline literals, ? * + with separators, meta-data on rules, productions and terminals) whose dumped grammar is compared "
          "structurally with the generator's abstract grammar: one production per alternative with its symbols in order, inline literal -> declared terminal, first rule = start, production meta-data else rule meta-data "
          "(priority, associativity, nops, nopse, kind, user keys), assignment names and ?= flags, helper rules shaped as documented and shared exactly by identical uses, nothing else in the grammar; "
@@ -131,7 +131,7 @@ PLANS["C09"] = dict(
     floor=dict(quick=100, thorough=1000),
 )
 PLANS["C14"] = dict(
-    jobs=sharded("c14", "C14", 1600, 24000), replay=replay_with("c14", "C14"),
+    jobs=sharded("c14", "C14", 6400, 96000, max_s_quick=90, max_s_thorough=1200), replay=replay_with("c14", "C14"),
     rule="one evaluation = one (conflict-free grammar, layout family, sentence rendering) parsed by the real LR parser with the generic TreeBuilder; for every leaf in order stored layout + token text must rebuild the input "
          "byte for byte up to trailing layout, every stored layout must be accepted by an independent recogniser of the family (whitespace; + line comments; + nested block comments), and the tree of the sentence "
          "with random layout inserted (also none between single-letter tokens, NBSP/EM SPACE, CRLF, comments at end of input) must equal the tree of the blank-separated sentence; "
@@ -167,7 +167,7 @@ PLANS["C15"] = dict(
     floor=dict(quick=300, thorough=1500),
 )
 PLANS["C16"] = dict(
-    jobs=sharded("c16", "C16", 6400, 120000, max_s_quick=120, max_s_thorough=1500), replay=replay_with("c16", "C16"), abort_is_violation=True,
+    jobs=sharded("c16", "C16", 9600, 160000, max_s_quick=90, max_s_thorough=1200), replay=replay_with("c16", "C16"), abort_is_violation=True,
     rule="one evaluation = one process_grammar call under catch_unwind (a process abort is caught through the case file the worker leaves behind): the result must be Ok or Err with a non-empty message. "
          "Texts: 115 hand-written exemplars (one per construct of the grammar language including the unimplemented ones, reserved names, duplicates, numeric extremes, Rust keywords) under the full lattice "
          "{LR,GLR} x 3 table types x prefer-shift settings x {default, generic} builder; every .rustemo file of the repository; outputs of all harness generators; 1-3 rounds of token-level and character-level "
@@ -266,7 +266,7 @@ def c08_post(ctx, results, wsname="c08"):
 
 
 PLANS["C08"] = dict(
-    jobs=gen_jobs("c08", "C08", 3, 30, "c08"), replay=gen_replay("c08", "C08", "c08"), post=c08_post, post_replay=lambda ctx, results, case: c08_post(ctx, results),
+    jobs=gen_jobs("c08", "C08", 6, 60, "c08"), replay=gen_replay("c08", "C08", "c08"), post=c08_post, post_replay=lambda ctx, results, case: c08_post(ctx, results),
     evaluations_key="evaluations",
     rule="one evaluation = one compared answer of a generated parser module (compiled by rustc from the source the real compiler wrote): every (state, token) action query, every (state, non-terminal) goto query "
          "(undefined cells must panic), every expected-token query, default layout state, strategy flags, the integer value of every enum variant, ProdKind -> NonTermKind, and the rendering of every parse result "
@@ -591,7 +591,7 @@ def c10_post(ctx, results, wsname="c10"):
 
 
 PLANS["C10"] = dict(
-    jobs=gen_jobs("c10", "C10", 10, 100, "c10"), replay=gen_replay("c10", "C10", "c10"), post=c10_post, post_replay=lambda ctx, results, case: c10_post(ctx, results),
+    jobs=gen_jobs("c10", "C10", 16, 160, "c10"), replay=gen_replay("c10", "C10", "c10"), post=c10_post, post_replay=lambda ctx, results, case: c10_post(ctx, results),
     rule="one evaluation = one (grammar, {LR,GLR}, loc_info off/on, sentence) run through the parser rustc compiled from the generated source with the generated default builder; sentences are random derivations of the written grammar "
          "in which every regex token has a unique text, so the Debug rendering of the returned value must contain exactly the content-token texts of the input, each once, in input order; with loc_info every located value must be the "
          "input slice at its span; when the derivation is unique (reference enumerator) the numbers of true/false equal the present/absent ?= bindings and the GLR first tree replayed through the builder renders identically to the LR value. "
@@ -633,7 +633,7 @@ def with_env(jobs_fn, env):
 
 PLANS["C17"] = dict(
     pre=build_rcomp,
-    jobs=with_env(sharded("c17", "C17", 96, 960, max_s_quick=150, max_s_thorough=1500), {"VH_RCOMP": RCOMP}),
+    jobs=with_env(sharded("c17", "C17", 192, 1920, max_s_quick=90, max_s_thorough=1200), {"VH_RCOMP": RCOMP}),
     replay=with_env(replay_with("c17", "C17"), {"VH_RCOMP": RCOMP}),
     rule="one evaluation = one (grammar, rcomp option vector): (a) 2-24 fresh rcomp processes (each with its own hash seeds) must write byte-identical parser and actions files, (b) the library API called with the equivalent settings "
          "(each option mapped to the setter its help text names, applied in rcomp's order) must write the same bytes, (c) every grammar is compiled twice in one process in opposite processing orders. "
@@ -644,7 +644,7 @@ PLANS["C17"] = dict(
     floor=dict(quick=100, thorough=800),
 )
 PLANS["C18"] = dict(
-    jobs=sharded("c18", "C18", 480, 6400, max_s_quick=150, max_s_thorough=1500), replay=replay_with("c18", "C18"),
+    jobs=sharded("c18", "C18", 1600, 24000, max_s_quick=90, max_s_thorough=1200), replay=replay_with("c18", "C18"),
     rule="one evaluation = one (grammar, edit history) pair: the actions file a forced generation wrote is edited 1-4 times (delete a random subset of items, delete single types while keeping their helpers, rewrite function bodies, "
          "insert user fn/struct/enum/const/static/use/impl/mod items, reorder everything; optionally regenerating in between and optionally changing the grammar) and then regenerated with force(false); parsed with syn, "
          "every pre-existing item must survive token for token and in order as a prefix, every appended item must be one a forced generation produces and must not duplicate an existing name, no fn/type is defined twice, "
